@@ -8,7 +8,7 @@ from sim.plan import propose
 ID = "C06"
 LEVEL = "exploration"
 TECHNIQUE = "deterministic simulation: stop/restart as a scheduled operation over durable state only (storage dict + the two accounts), offline user operations, cursor-safety invariant at every step boundary"
-RULE = ("each run = flavour pair (incl. case-insensitive and mixed-case pairs, where the op mix adds case-only renames), history of 1-7 user ops (one- or two-sided) in which the scheduler inserts 1-2 stop/restart pairs at arbitrary step boundaries (also mid-sync with pending entries); "
+RULE = ("each run = flavour pair (incl. case-insensitive and mixed-case pairs, where the op mix adds case-only renames), restart model (every other run: a fresh process - new engine, provider objects without root or session state; the others: the application rebuilds the engine inside one process around the same provider objects, which still know their root, so that the new event managers read storage in their constructor - a constructor that raises is a violation), history of 1-7 user ops (one- or two-sided) in which the scheduler inserts 1-2 stop/restart pairs at arbitrary step boundaries (also mid-sync with pending entries); "
         "0-3 user ops happen while the engine is down; restart variant intact | cursor rows removed | cursor rejected by the provider | walk marker removed. A restart builds a new CloudSync over the same "
         "storage dict and the same two MockProvider accounts (event cursor of the provider object reset as a fresh connection would find it, process-global provider guard cleared). Oracles: convergence "
         "and no-loss at quiet (one-sided leftovers tolerated only in the cursor-removed / cursor-rejected variants and only at paths a user deleted or renamed away: a walk cannot report deletions, and the statement promises only creations and modifications there); one-sided histories mirror exactly without .conflicted; a restart at a quiet point with nothing changed offline issues zero provider writes; at every step boundary the stored "
@@ -101,6 +101,17 @@ def _setup(ex, case):
     def on_boot(world):
         ex.cmon.wrap()
     w.on_boot = on_boot
+    orig_up = w.up
+
+    def up(variant="intact"):
+        from sim.world import SimCrash, HarnessError
+        try:
+            return orig_up(variant)
+        except (SimCrash, HarnessError):
+            raise
+        except Exception as e:      # noqa: the constructor of the new engine raised over the persisted state
+            raise Violation("restart-failed", "a new engine over the persisted state did not come up (restart variant %s): %s: %s" % (variant, type(e).__name__, e))
+    w.up = up
 
     def hook(side, name, a, idx):
         if not ex.restarts or name not in ("create", "upload"):
@@ -271,6 +282,8 @@ def generate(rng, tier, index):
     style = weighted(rng, (("eager", 2), ("batched", 4), ("bursty", 1), ("split", 3)))
     sides = rng.choice([(0,), (1,), (0, 1), (0, 1)])
     case = {"prop": ID, "cfg": {"flavour": flav}, "style": style, "family": "restart-" + style}
+    if index % 2:
+        case["cfg"]["same_process"] = True      # restart inside one process: the provider objects survive and still know their root
     mix = random_mix(rng)
     if flav in ("oo_ci", "oo_mix", "oo_xim"):
         mix["recase"] = 3       # case-only renames: what a case-insensitive side must still tell apart
